@@ -8,11 +8,11 @@ from ..machine import Machine, cache_op, control_op, structural_op, viol
 
 class C06(Machine):
     ID = "C06"
-    FAMILY_WEIGHTS = {"sparse": 3, "dense": 1, "canal": 4, "modular": 4, "maa": 1}
+    FAMILY_WEIGHTS = {"sparse": 3, "dense": 1, "canal": 4, "modular": 4, "maa": 1, "cascade": 4}
     NMAX = {"quick": 6, "thorough": 7}
 
     def gen_params(self, sc, rng):
-        sc["params"] = {"prefix": rng.choice([0, 0, 1, 2, 3, 4]), "controls": rng.choice([1, 1, 2])}
+        sc["params"] = {"prefix": rng.choice([0, 0, 1, 2, 3, 4]), "controls": rng.choice([1, 2, 3, 3, 4])}
 
     def setup(self, world, sc):
         return {"params": sc["params"], "n_prefix": 0, "n_c": 0, "interventions": 0, "successful": 0, "overrides": 0, "multi_step": 0, "inconsistent_overrides": 0}
